@@ -134,7 +134,13 @@ impl Display for Variant<'_> {
                     )?;
                 }
 
-                write!(f, "{body}")
+                // A group in the body position needs parentheses to stay a group of its own
+                // [ref:bison_grammar]. Otherwise its definitions would join this group when the
+                // output is parsed again.
+                match body.variant {
+                    Self::Let(_, _) => write!(f, "({body})"),
+                    _ => write!(f, "{body}"),
+                }
             }
             Self::Integer => write!(f, "{INTEGER_KEYWORD}"),
             Self::IntegerLiteral(integer) => write!(f, "{integer}"),
